@@ -342,12 +342,13 @@ class append_row:
 
 @contract(EX + 'empty_row', props=PROPS + ['C01', 'C03'])
 class empty_row:
+    """a row is empty iff every cell is one of the three placeholders '.', '*' and '' -- any number of cells, any texts (a bare '!' is
+    a local comment cell, not a placeholder)"""
     def inputs(g):
-        n = g.choice('row.len', [0, 1, 2, 3])
-        return {'row': [g.choice('row[' + str(k) + ']', ['.', '', '*', '4c', '=', '*-']) for k in range(n)]}
+        return {'row': g.seq('row', lambda e: e.str_sym('cell', ['.', '', '*', '4c', '=', '*-', '!', '!x', '**kern']))}
 
     def post_all_null(result, row):
-        return result == all(c in ('.', '', '*') for c in row)
+        return result == (len([c for c in row if not (c in ('.', '', '*'))]) == 0)
 
 
 # ------------------------------------------------------------------------------------------------ options
